@@ -137,6 +137,21 @@ func c19GenRate(t *rapid.T) c19Rate {
 	case 2: // multiple of a unit
 		u := rapid.SampledFrom(c19Units).Draw(t, "unit")
 		k := rapid.Int64Range(1, 1000).Draw(t, "k")
+		if rapid.IntRange(0, 3).Draw(t, "hugek") == 0 {
+			// multiples at and beyond what a Duration holds: the largest that fits is a rate like any other, one more
+			// (or many more) is no duration at all and is rejected, never wrapped around
+			q := uint64(math.MaxInt64 / u.ns)
+			ku := rapid.SampledFrom([]uint64{q, q - 1, q / 2, q + 1, q + 2, 2 * q, 2*q + 2, 3 * q, 4*q + 4, 6000000, 1 << 40, 1 << 62, 1 << 63, math.MaxUint64}).Draw(t, "kbig")
+			if ku == 0 { // (4q+4 wraps to 0 for nanoseconds)
+				ku = q
+			}
+			c.Text = n + "/" + strconv.FormatUint(ku, 10) + u.name
+			if ku > q {
+				return c19Rate{Text: c.Text, Reject: true}
+			}
+			c.Per = int64(ku) * u.ns
+			break
+		}
 		c.Per, c.Text = k*u.ns, n+"/"+strconv.FormatInt(k, 10)+u.name
 	default: // compound / fractional notations
 		if rapid.Bool().Draw(t, "fixedform") {
